@@ -14,7 +14,7 @@
   `T : Tables` (the dot-access tables of constants.py) is universally quantified; the only table fact used is
   `ClassPlain T`: `class` is not listed as a boolean attribute (checked on the real tables by the harness on every run).
 -/
-import AHP.Lemmas.AttrsFrame
+import AHP.Lemmas.AttrsWriteRead
 namespace AHP.C09
 open AHP AHP.Attrs
 
@@ -257,14 +257,103 @@ theorem readers_keep_list (T : Tables) (e : El) :
     (items e).2.cls = e.cls ∧ (keys e).2.cls = e.cls ∧ (attrsList e).2.cls = e.cls ∧
     (startTagItems T e).2.cls = e.cls ∧ (domKeys e).2.cls = e.cls := ⟨rfl, rfl, rfl, rfl, rfl⟩
 
-/-- C09c: the value `classList` returns is a fresh list: whatever is done to it, the element's views stay what
-    they were (in the model the view returns a value, not a reference; the aliasing itself is exercised by the oracle). -/
-theorem classList_is_a_copy (e : El) (f : List Str → List Str) : (fun _ => e) (f (classList e)) = e := rfl
+/- C09c, "classList returns a copy whose mutation does not affect the element": NOT a theorem here.  The clause is
+   about Python object identity (the list object handed out is not the list object the element keeps).  In a value
+   model `classList e` is a value of type `List Str`; any statement "mutating it leaves `e` alone" is `x = x` (the
+   former `classList_is_a_copy` was exactly that, proved by `rfl`, and has been removed after the review of the
+   statements, design.d/reviews/review-A-C01-C10.md row 2).  The clause is checked on the real code only: oracle
+   `harness/ahpcheck/props/c09.py`, failure kind `classList-aliased` (the returned list is mutated — append, clear — and
+   the element's className / classList / start tag are read again), on every generated history. -/
 
 /-- interleavings: every operation that does not address the class attribute — other attributes through any of the
     six writers, every style writer, every synchronising reader — leaves the list exactly as it was -/
 theorem other_operations_keep_list (T : Tables) (op : Op) (h : KeepsClass T op) (e : El) : (step T e op).2.cls = e.cls :=
   step_cls_frame T op h e
+
+/-! ### C09e — WRITE → READ and FRAME for the whole-list writers
+
+  `className = v`, `setAttribute('class', v)`, `attributes['class'] = v`, `tag.className = v` through the dot table,
+  `removeAttribute('class')`, `del attributes['class']` (any spelling of the key).  `addClass` / `removeClass`: C09b. -/
+
+theorem validName_of_class {k : Str} (hk : lower k = classK) : validName k = true := by
+  rw [← validName_lower, hk]; decide
+
+/-- WRITE → READ, the list: every whole-list writer replaces `_classNames` by the words of the assigned string
+    (`stripWordsOnly`, split at spaces, empty words dropped; `None` = no names); the removers empty it -/
+theorem write_read_list (T : Tables) {k : Str} (hk : lower k = classK) (v : Option Str) (e : El) :
+    (setClassName v e).cls = words (v.getD []) ∧
+    (setAttribute T k v e).2.cls = words (v.getD []) ∧ (setAttribute T k v e).1 = .ok ∧
+    (mapSet T k v e).2.cls = words (v.getD []) ∧
+    (removeAttribute k e).cls = [] ∧ (mapDel k e).cls = [] := by
+  have hv := validName_of_class hk
+  refine ⟨rfl, ?_, setAttribute_valid T hv v e, ?_, ?_, ?_⟩
+  · rw [setAttribute_eq_mapSet T hv, mapSet_class T hk]
+  · rw [mapSet_class T hk]
+  · unfold removeAttribute
+    rw [mapDel_class (by rw [lower_idem]; exact hk)]
+  · rw [mapDel_class hk]
+
+/-- `tag.className = value` through `__setattr__` (a string, or `None`) -/
+theorem write_read_dot (T : Tables) (v : DotVal) (e : El) :
+    (dotSet T classNameK v e).2.cls = words ((match v with | .none => Option.none | v => some v.tostr).getD []) := by
+  unfold dotSet
+  rw [if_pos rfl]
+  rfl
+
+/-- WRITE → READ, every view: in a state whose list is `words s` — the state each of the writers above leaves —
+    `classList`, `className`, `hasClass`, `attributes['class']`, `getAttribute('class')`, the presence tests and the
+    one list of C08 read `words s` / its rendering back -/
+theorem write_read_views (T : Tables) (s : Str) {e' : El} (h : e'.cls = words s) (d : PyVal) :
+    classList e' = words s ∧ e'.className = joinWith [' '] (words s) ∧ (∀ n, hasClass n e' = true ↔ n ∈ words s) ∧
+    getitem T classK e' = .str (joinWith [' '] (words s)) ∧
+    (T.binary.contains classK = false → (getAttribute T classK d e').1 = .str (joinWith [' '] (words s))) ∧
+    hasAttribute classK e' = !(words s).isEmpty ∧ contains classK e' = !(words s).isEmpty ∧
+    aget classK (viewList e') = (if (words s).isEmpty then none else some (some (joinWith [' '] (words s)))) := by
+  have hcn : e'.className = joinWith [' '] (words s) := by unfold El.className; rw [h]
+  refine ⟨h, hcn, ?_, ?_, ?_, ?_, ?_, ?_⟩
+  · intro n; rw [view_hasClass, h]
+  · rw [view_getitem T lower_classK, hcn]
+  · intro hb; rw [view_getAttribute T lower_classK hb, hcn]
+  · rw [presence_hasAttribute lower_classK, h]
+  · rw [presence_contains lower_classK, h]
+  · rw [viewList_class, h, hcn]
+
+/-- e.g. `className = v` then every view: the composite -/
+theorem write_read_className (T : Tables) (v : Option Str) (e : El) (d : PyVal) :
+    classList (setClassName v e) = words (v.getD []) ∧
+    (setClassName v e).className = joinWith [' '] (words (v.getD [])) ∧
+    hasAttribute classK (setClassName v e) = !(words (v.getD [])).isEmpty :=
+  have h := write_read_views T (v.getD []) (e' := setClassName v e) rfl d
+  ⟨h.1, h.2.1, h.2.2.2.2.2.1⟩
+
+/-- FRAME: a class writer (any of the seven) leaves every other key of the mapping — `style` included — listed as it
+    was, and the style map untouched.  `op` ranges over the operations that address `class` only. -/
+theorem write_frame_other_keys (T : Tables) (op : Op) (hop : addresses T op = [classK]) {e : El} (h : DictInv e)
+    {k : Str} (hk : k ≠ classK) :
+    aget k (viewList (step T e op).2) = aget k (viewList e) ∧ (step T e op).2.sty = e.sty := by
+  refine ⟨frame_lookup T op h (by rw [hop]; simpa using hk), step_sty_of_addresses T op e ?_⟩
+  rw [hop]
+  simpa using styleK_ne_classK
+
+/-- the seven class writers are such operations (any spelling of the key) -/
+theorem class_writers_address_class (T : Tables) {k : Str} (hk : lower k = classK) (s : Str) (v : Option Str) (dv : DotVal) :
+    addresses T (.addClass s) = [classK] ∧ addresses T (.rmClass s) = [classK] ∧ addresses T (.className v) = [classK] ∧
+    addresses T (.setAttr k v) = [classK] ∧ addresses T (.rmAttr k) = [classK] ∧ addresses T (.mapSet k v) = [classK] ∧
+    addresses T (.mapDel k) = [classK] ∧ addresses T (.dot classNameK dv) = [classK] := by
+  simp [addresses, hk]
+
+/-- **The list as a LIST.**  Replacing the class list by `c` (what every class writer does, `addClass` / `removeClass`
+    included) is `d['class'] = ' '.join(c)` — `del d['class']` for an empty `c` — on the one list: the entry keeps
+    its place when `class` was listed, goes last when it was not, every other entry stays where it is.  Hypothesis
+    `ClassSynced`: the state any list-shaped reader leaves (C08 `write_list_set_after_read`). -/
+theorem write_list_class {e : El} (h : DictInv e) (hs : ClassSynced e) (c : List Str) :
+    viewList { e with cls := c } =
+      if c.isEmpty then adel classK (viewList e) else aset classK (some (joinWith [' '] c)) (viewList e) :=
+  viewList_set_cls h hs c
+
+/-- in every state: the list without its `class` entry does not change at all -/
+theorem write_list_class_general (e : El) (c : List Str) :
+    adel classK (viewList { e with cls := c }) = adel classK (viewList e) := viewList_cls_general e c
 
 /-! ### non-vacuity -/
 
@@ -283,5 +372,21 @@ example : GoodOp (.addClass ['a', ' ', 'c']) := by
 
 /-- the value-less class attribute of the pinned tree (`<div class>`) gives no names -/
 example : (mk T0 ['d', 'i', 'v'] false [(classK, none)]).cls = [] := by decide
+
+/-! non-vacuity of C09e -/
+
+/-- `setAttribute('CLASS', ' x  y ')` on an element with classes: the list is replaced, every view follows -/
+example : ((setAttribute T0 "CLASS".toList (some " x  y ".toList)
+      (run T0 (mk T0 ['d', 'i', 'v'] false []) [.className (some ['a'])])).2).cls = [['x'], ['y']] := by decide
+example : lower "CLASS".toList = classK := by decide
+/-- a `ClassSynced` state with a style and an attribute: `className = 'p q'` rewrites the entry in place, `removeAttribute`
+    deletes it, nothing else moves -/
+def eS : El := run T0 (mk T0 ['d', 'i', 'v'] false [(classK, some ['a']), ("id".toList, some ['i'])])
+  [.sync, .styAssign (some "top: 1px".toList)]
+example : DictInv eS ∧ ClassSynced eS := ⟨(reach_inv ⟨_, _, _, _, rfl⟩).2, by unfold ClassSynced; decide⟩
+example : viewList eS = [("id".toList, some ['i']), (classK, some ['a']), (styleK, some "top: 1px".toList)] := by decide
+example : viewList (setClassName (some "p q".toList) eS)
+    = [("id".toList, some ['i']), (classK, some "p q".toList), (styleK, some "top: 1px".toList)] := by decide
+example : viewList (removeAttribute classK eS) = [("id".toList, some ['i']), (styleK, some "top: 1px".toList)] := by decide
 
 end AHP.C09
